@@ -33,6 +33,13 @@ type geoLoop struct {
 func maskOf(v ssa.Value) (ssa.Value, int64, bool) {
 	bo, ok := v.(*ssa.BinOp)
 	if !ok {
+		// `uint(b & 127)`: the mask is applied before a conversion that does not narrow; the masked value is
+		// non-negative, so the widened value is the same number
+		if in, isB := stripConvsSafe(v).(*ssa.BinOp); isB && in.Op == token.AND && in != v {
+			if x, m, ok := maskOf(in); ok {
+				return x, m, true
+			}
+		}
 		return nil, 0, false
 	}
 	switch bo.Op {
@@ -221,6 +228,11 @@ func (p *Prog) lvbiRange(v ssa.Value) (*big.Int, string, bool) {
 	}
 	g, why := p.geoSummary(writer)
 	if g == nil {
+		// a streaming decoder of another shape: the largest value it stored on any evaluated stream (C15 R15.6);
+		// the evaluated streams include ff ff ff 7f, the largest sequence the specification accepts
+		if r := p.vbiEvalFor(writer); r != nil && writer == r.rd && r.ok(writer) && r.boundedWork[writer] {
+			return big.NewInt(r.maxStored), fmt.Sprintf("by evaluation (C15 R15.6): %s is written only by %s, which agrees with MQTT v5.0 §1.5.5 on %d byte sequences and stores at most %d", cls.name, qname(writer), r.nseqs, r.maxStored), true
+		}
 		return nil, why, false
 	}
 	return g.Bound, fmt.Sprintf("L-vbi: %s is written only by %s, whose loop accumulates (x & %d)·m with m ← m·%d from %d and leaves with an error once m > %d, so the stored value is <= %s", cls.name, qname(writer), g.M, g.R, g.C0, g.B, g.Bound), true
